@@ -217,7 +217,7 @@ func runAliasMode(seed int64, n int, tr *transcript) {
 					tr.stats["alias-scan-buffer-calls"]++
 				}
 				tl := t.TranscriptLit(lit)
-				switch op := r.Intn(6); op {
+				switch op := r.Intn(7); op {
 				case 0, 1: // Insert, then the caller reuses the buffer
 					v := step + 1
 					out := safely(func() string { raw.Insert(b.key(), v); return "ok" })
@@ -234,6 +234,44 @@ func runAliasMode(seed int64, n int, tr *transcript) {
 						b.scribble() // the scanner idiom: the buffer now holds something else
 						tr.stats["alias-scribbles"]++
 					}
+				case 6: // the pop-min idiom: a key handed out by the tree is deleted, something else is inserted, and the
+					// caller goes on using (and then reusing) the key it was given
+					var k []byte
+					if r.Intn(2) == 0 {
+						k, _, _ = raw.Minimum()
+					} else {
+						k, _, _ = raw.Maximum()
+					}
+					if k == nil || !isAlpha && len(present) == 0 {
+						continue
+					}
+					keep := append([]byte{}, k...)
+					klit := hexLit(keep)
+					if _, ok := present[klit]; !ok {
+						continue
+					}
+					out := safely(func() string {
+						if raw.Delete(k) {
+							return "1"
+						}
+						return "0"
+					})
+					tr.emit(fmt.Sprintf("del %d %s", id, t.TranscriptLit(klit)), out)
+					delete(present, klit)
+					v := step + 1
+					out = safely(func() string { raw.Insert(b.key(), v); return "ok" })
+					tr.emit(fmt.Sprintf("ins %d %s %d", id, tl, v), out)
+					if out == "PANIC" {
+						goto nextTree
+					}
+					present[lit] = v
+					if !bytes.Equal(k, keep) {
+						tr.emit(fmt.Sprintf("assert %d key-handed-out-then-deleted-stays-as-it-was", id), fmt.Sprintf("was=%x,is=%x", keep, k))
+					}
+					for i := range k {
+						k[i] = 'X' // the caller reuses what it was given
+					}
+					tr.stats["alias-pop-idiom"]++
 				case 2:
 					out := safely(func() string {
 						if v, ok := raw.Search(b.key()); ok {
@@ -445,7 +483,51 @@ func runMemMode(seed int64, n int, sub string, tr *transcript) {
 		memDroppedTree(tr, slack)
 		memChurnVsFresh(tr, slack)
 		memDenseDrain(tr, slack)
+		memSubstringKeys(tr, slack)
 	}
+}
+
+// memSubstringKeys: short keys cut out of large records (a field of a line, a token of a document) that the caller
+// then drops: the tree keeps what it stores – the key – and not the record it came from, also under churn.
+func memSubstringKeys(tr *transcript, slack int64) {
+	run := func(name string, ins func(string, int), del func(string)) {
+		defer func() {
+			if rec := recover(); rec != nil {
+				tr.emit("assert 0 no-panic-during-memory-run/substring-keys/"+name, "PANIC:"+strings.ReplaceAll(fmt.Sprint(rec), " ", "_"))
+			}
+		}()
+		base := int64(liveHeap())
+		const nkeys, recLen = 32, 256 << 10
+		for round := 0; round < 12; round++ {
+			for i := 0; i < nkeys; i++ {
+				rec := strings.Repeat(string(rune('a'+i%26)), recLen) // a fresh record
+				off := 1000 + 37*i
+				key := rec[off:off+3] + strconv.Itoa(i) // concatenation copies: vary the way the key is cut
+				if i%2 == 0 {
+					rec = rec[:off] + fmt.Sprintf("k%05d", i) + rec[off+6:]
+					key = rec[off : off+6] // a true substring of the record
+				}
+				if round > 0 {
+					del(key)
+				}
+				ins(key, i)
+			}
+		}
+		grown := int64(liveHeap()) - base
+		n := "assert 0 keys-cut-from-large-records-do-not-pin-the-records/" + name
+		if grown > slack+nkeys*1024 {
+			tr.emit(n, fmt.Sprintf("retained=%d", grown))
+		} else {
+			tr.emit(n, "ok")
+		}
+	}
+	a := art.NewAlphaSortedTree[string, int]()
+	run("alpha-string", func(k string, v int) { a.Insert(k, v) }, func(k string) { a.Delete(k) })
+	c := art.NewCollationSortedTree[string, int]()
+	run("coll-string", func(k string, v int) { c.Insert(k, v) }, func(k string) { c.Delete(k) })
+	runtime.KeepAlive(a)
+	runtime.KeepAlive(c)
+	tr.stats["mem-substring-keys"] += 2
 }
 
 // memDenseDrain: a dense tree (consecutive integers: thousands of wide nodes) emptied key by key, then dropped: neither
@@ -952,6 +1034,13 @@ type bigVal struct {
 func gcCheck[K any, V any](tr *transcript, name string, t art.Tree[K, V], keys []K, mk func(i int) V, r *rand.Rand, keyLit func(K) string) {
 	debug.SetGCPercent(1)
 	defer debug.SetGCPercent(100)
+	defer func() {
+		// a fault inside the library is this tree's failure, not the end of the run
+		if rec := recover(); rec != nil {
+			tr.emit("assert 0 keys-and-values-survive-gc/"+name, "PANIC:"+strings.ReplaceAll(fmt.Sprint(rec), " ", "_"))
+			tr.stats["gc-trees"]++
+		}
+	}()
 	want := map[string]V{}
 	fail := ""
 	for i, k := range keys {
@@ -961,6 +1050,21 @@ func gcCheck[K any, V any](tr *transcript, name string, t art.Tree[K, V], keys [
 		if i%16 == 0 {
 			runtime.GC()
 		}
+	}
+	// every third key gets a new value (the store into an existing leaf), and must still be found under its key
+	for i, k := range keys {
+		if i%3 != 0 {
+			continue
+		}
+		v := mk(i + 1000003)
+		t.Insert(k, v)
+		want[keyLit(k)] = v
+		if got, ok := t.Search(k); (!ok || !reflect.DeepEqual(got, v)) && fail == "" {
+			fail = fmt.Sprintf("overwrite:key-%s-not-found-with-its-new-value", keyLit(k))
+		}
+	}
+	if t.Size() != len(want) && fail == "" {
+		fail = fmt.Sprintf("overwrite:Size=%d,keys=%d", t.Size(), len(want))
 	}
 	verify := func(phase string) {
 		runtime.GC()
@@ -1288,6 +1392,11 @@ func runGCMode(seed int64, n int, tr *transcript) {
 	gcForValue(tr, "slice", func(i int) []int { return []int{i, i + 1, i + 2} }, r, n)
 	gcForValue(tr, "big", func(i int) bigVal { var b bigVal; b.a[0], b.a[15] = uint64(i), uint64(i)*7; return b }, r, n)
 	gcForValue(tr, "zero-size", func(i int) struct{} { return struct{}{} }, r, n)
+	// values narrower than a machine word (whatever shares the word with them in a leaf must survive a store)
+	gcForValue(tr, "bool", func(i int) bool { return i%3 == 1 }, r, n/2)
+	gcForValue(tr, "uint8", func(i int) uint8 { return uint8(i*7 + 1) }, r, n/2)
+	gcForValue(tr, "int32", func(i int) int32 { return int32(-i*13 - 1) }, r, n/2)
+	gcForValue(tr, "3bytes", func(i int) [3]byte { return [3]byte{byte(i), byte(i >> 8), 0xEE} }, r, n/2)
 	gcCrossType(tr, r)
 	gcAddressKeys(tr, r)
 	keys := make([]string, 0, len(tr.stats))
